@@ -8,6 +8,9 @@ CHECKS = {
  "C12": dict(cat="proof", ref="DESIGN.md §5 C12",
    text="Coq theorems over a model of diff::lines, make_diff, ModifiedLines, json/checkstyle line arithmetic and XmlEscaped, for every pair of texts and every context size (no bound); model tied to the code by a correspondence run (exhaustive over small line sequences + seeded random texts) through cfg-guarded hooks; the property's statement is additionally evaluated on the implementation's own results.",
    note="Trusted: Coq kernel + vm_compute; hand-written model (tied by correspondence, not translation); python oracles and json/xml parsers; serde_json escaping and the print/parse round trip of ModifiedLines are checked on the implementation only (not theorems). Known finding class HasXmlForbiddenChar."),
+ "C02": dict(cat="proof", ref="DESIGN.md §5 C02",
+   text="Partial. Theorems: the fixed-point statements for the passes that the anchors name and that are modelled for other properties (stable sort of a sorted group is the identity, sorting is idempotent for a total preorder, range normalisation is idempotent; the blank-line clamp, trailing-newline cut and newline conversion fixed points are in coq/C08). The universal over programs is SEARCHED, not proved: on a fixed grid (committed pool of 1614 programs x 3 layouts x 4 option presets x 6 widths = 116k cases in thorough, a seed-selected 1/12 in quick) every accepted output is formatted again in process and must be byte-identical and accepted.",
+   note="Idempotence of the whole formatter is not a theorem (no model of the 25k-line pretty-printer). 181 genuine non-idempotence findings of the unchanged tree on the grid are listed in known_findings.d/C02.txt, keyed by pool file and first differing line pair."),
  "C03": dict(cat="proof", ref="DESIGN.md §5 C03",
    text="Coq theorems (31) over a faithful model of CharClasses, the two comment/code slice iterators, CommentReducer, changed_comment_content and recover_comment_removed: every char classified once in order, slices tile the text with exact byte offsets and alternate, the panic arm is unreachable, comment slices start with a comment opener; the safety net returns either the source verbatim or a text with the same comment payload (net_sound), a dropped non-trivial comment is always detected, exact class of trivial comments whose loss is not. Tied to the code by a seeded correspondence run through hooks. rewrite_comment (not modelled) is checked to preserve every comment's words on generated comments under wrap_comments x normalize_comments x widths.",
    note="Partial: the universal over programs (every comment at the listed positions reappears) is decided per run by an oracle, not by a theorem; the per-rewriter gap recovery and write_list comment plumbing are not modelled. Proof exposed three weaknesses of the net itself (_refuted lemmas): it panics on an unterminated block comment, ignores a '*' anywhere in a continuation line, and cannot see merged words."),
